@@ -158,6 +158,9 @@ def run(tier, rep):
 
 
 def replay(case, rep):
+    if case.get("module") == "FacadeTrace":
+        from . import c12
+        return c12.replay(case, rep)
     h = case["history"]
     t = {"ev": execute(h)}
     _validate(rep, case.get("key", "replay").split(":")[0], [h], [t])
